@@ -7,7 +7,7 @@
 From Coq Require Import NArith ZArith Arith List Bool Lia ZifyBool ZifyN.
 Import ListNotations.
 From LunaLib Require Import Netlist Bits Affine Machine PackN.
-From LunaModel Require Import Crc Crc_proofs Handshake Handshake_proofs Usb2DataRx_proofs Usb2DataTx Usb2DataTx_proofs TokenDet TokenDet_proofs C20_TxPath.
+From LunaModel Require Import Crc Crc_proofs Handshake Handshake_proofs Usb2DataRx_proofs Usb2DataTx Usb2DataTx_proofs TokenDet TokenDet_proofs InXfer C20_TxPath.
 Open Scope N_scope.
 Ltac Zify.zify_post_hook ::= Z.div_mod_to_equations.
 
@@ -590,18 +590,21 @@ Definition w_wf (s : wstate) : Prop :=
 
 Lemma w_dec_enc : forall s, w_wf s -> w_dec (w_enc s) = s.
 Proof.
-  intros [ph c e w] [Hw Hp]. cbn [w_ph w_credit w_expect w_wait] in *. unfold w_dec, w_enc.
-  cbn [w_ph w_credit w_expect w_wait].
+  intros [ph c e k w] [Hw Hp]. cbn [w_ph w_credit w_expect w_dataok w_wait] in *. unfold w_dec, w_enc.
+  cbn [w_ph w_credit w_expect w_dataok w_wait].
   set (r := match ph with W_IDLE => 0 | W_RX l => 1 + 4 * bytes_enc l | W_TX l src => 2 + 4 * (src mod 8 + 8 * bytes_enc l) end).
-  pose proof (c20_b2n_lt2 c) as Bc. pose proof (c20_b2n_lt2 e) as Be.
+  pose proof (c20_b2n_lt2 c) as Bc. pose proof (c20_b2n_lt2 e) as Be. pose proof (c20_b2n_lt2 k) as Bk.
   rewrite (N.mod_small w 65536) by exact Hw.
-  assert (E1 : N.odd (b2n c + 2 * b2n e + 4 * w + 262144 * r) = c).
-  { replace (b2n c + 2 * b2n e + 4 * w + 262144 * r) with (b2n c + 2 * (b2n e + 2 * w + 131072 * r)) by lia. apply rx_odd_b2n. }
-  assert (E2 : N.odd ((b2n c + 2 * b2n e + 4 * w + 262144 * r) / 2) = e).
-  { replace ((b2n c + 2 * b2n e + 4 * w + 262144 * r) / 2) with (b2n e + 2 * (w + 65536 * r)) by lia. apply rx_odd_b2n. }
-  assert (E3 : ((b2n c + 2 * b2n e + 4 * w + 262144 * r) / 4) mod 65536 = w) by lia.
-  assert (E4 : (b2n c + 2 * b2n e + 4 * w + 262144 * r) / 262144 = r) by lia.
-  rewrite E1, E2, E3, E4. f_equal. subst r.
+  set (x := b2n c + 2 * b2n e + 4 * b2n k + 8 * w + 524288 * r).
+  assert (E1 : N.odd x = c).
+  { replace x with (b2n c + 2 * (b2n e + 2 * b2n k + 4 * w + 262144 * r)) by (unfold x; lia). apply rx_odd_b2n. }
+  assert (E2 : N.odd (x / 2) = e).
+  { replace (x / 2) with (b2n e + 2 * (b2n k + 2 * w + 131072 * r)) by (unfold x; lia). apply rx_odd_b2n. }
+  assert (E2' : N.odd (x / 4) = k).
+  { replace (x / 4) with (b2n k + 2 * (w + 65536 * r)) by (unfold x; lia). apply rx_odd_b2n. }
+  assert (E3 : (x / 8) mod 65536 = w) by (unfold x; lia).
+  assert (E4 : x / 524288 = r) by (unfold x; lia).
+  rewrite E1, E2, E2', E3, E4. f_equal. subst r.
   destruct ph as [|l|l src].
   - reflexivity.
   - replace ((1 + 4 * bytes_enc l) mod 4) with 1 by lia.
@@ -611,4 +614,35 @@ Proof.
     replace ((2 + 4 * (src + 8 * bytes_enc l)) / 4 / 8) with (bytes_enc l) by lia.
     replace (((2 + 4 * (src + 8 * bytes_enc l)) / 4) mod 8) with src by lia.
     rewrite bytes_dec_enc by exact Hl. reflexivity.
+Qed.
+
+(* ============================================================================================== *)
+(* D. where the request discipline comes from, as far as an endpoint model says: the bulk / interrupt IN endpoint
+      (USBInTransferManager as wired by USBStreamInEndpoint, Model/InXfer.v).  Its handshake request (NAK) and its
+      data request (tx.valid) never coincide; a NAK is requested only in the cycle an IN token for the endpoint
+      becomes answerable (tokenizer.ready_for_response for this endpoint); a data packet starts only in that cycle
+      (zero-length packet) or in the cycle after it (SEND_PACKET is entered only from WAIT_TO_SEND on such a token). *)
+Lemma inxfer_requests_exclusive : forall mps ep st i,
+  let o := ix_outf mps ep st i in o_nak o && o_valid o = false.
+Proof. intros. unfold o, ix_outf. cbn [o_nak o_valid]. destruct (x_fsm st); rewrite ?andb_false_r; reflexivity. Qed.
+
+Lemma inxfer_nak_trigger : forall mps ep st i, o_nak (ix_outf mps ep st i) = true -> tok ep i = true.
+Proof. intros mps ep st i. unfold ix_outf. cbn [o_nak]. destruct (x_fsm st); intro H; try discriminate; exact H. Qed.
+
+Lemma inxfer_zlp_trigger : forall mps ep st i, x_fsm st <> SEND -> o_valid (ix_outf mps ep st i) = true -> tok ep i = true.
+Proof.
+  intros mps ep st i Hn. unfold ix_outf. cbn [o_valid]. destruct (x_fsm st); try discriminate; try contradiction.
+  unfold zlp_now. intro H. apply andb_true_iff in H as [H _]. apply andb_true_iff in H as [_ H]. exact H.
+Qed.
+
+Lemma inxfer_data_trigger : forall fa fr mps ep st i,
+  x_fsm st <> SEND -> x_fsm (ix_next fa fr mps ep st i) = SEND -> tok ep i = true.
+Proof.
+  intros fa fr mps ep st i Hn. unfold ix_next. destruct (x_fsm st) eqn:E; try contradiction.
+  - destruct (packet_ready mps st i); cbn [x_fsm]; discriminate.
+  - destruct (clr ep i); cbn [x_fsm]; [discriminate|]. destruct (tok ep i); [reflexivity|]. cbn [x_fsm]. discriminate.
+  - destruct (i_ack i).
+    + destruct (follow_up mps st); cbn [x_fsm]; [discriminate|].
+      destruct (negb (w_ready mps st) || packet_ready mps st i); cbn [x_fsm]; [discriminate|]. destruct (i_newtok i); discriminate.
+    + cbn [x_fsm]. destruct (i_newtok i); discriminate.
 Qed.
